@@ -76,6 +76,16 @@ def strategy(tier):
     return strat()
 
 
+# comments whose text ENDS IN A BACKSLASH (not a line continuation: a comment runs to the end of the line) next to real continuations, before / after /
+# inside the statements and elements that get removed, cut, replaced and inserted
+BACKSLASH_COMMENT_PROGRAMS = (
+    'a = 1  # dir C:\\tools\\\nb = 2\nc = 3  # x \\\n# own line \\\nd = 4\ne = 5',
+    'if a:  # hdr \\\n    e = 5  # in \\\n    f = 6\n    g = 7  # last \\\nelse:  # e \\\n    h = 8\ni = 9',
+    'g = [  # open \\\n    h,  # el \\\n    i,\n    j,  # end \\\n]\nk = f(a,  # arg \\\n      b)',
+    'j = 7; k = 8  # semi \\\nl = 9\nm = 1 + \\\n    2  # after real continuation \\\nn = 3\no = \\\n  4\np = 5',
+    'def f():  # d \\\n    """doc"""  # ds \\\n    x = 1  # tx \\\n    return x  # r \\\n\n# above g \\\ndef g(): pass  # tg \\\n',
+)
+
 def enumerate_cases(tier, shard, nshards, seed):
     """Grids on the trivia-dense and template programs: every node x {remove, cut under each option set; replace by a few donors}, and every container x
     insertion at every position x two donors x option sets (docstr, trivia, pep8space, elif_, pars)."""
@@ -92,6 +102,9 @@ def enumerate_cases(tier, shard, nshards, seed):
     from . import c03
 
     yield from em.slice_edit_grid(c03.GRID_TEMPLATES, tier, shard, nshards, seed, thin=thin, only_ops=('insert',), optsets=({}, {'trivia': False}))
+
+    yield from em.single_edit_grid(BACKSLASH_COMMENT_PROGRAMS, tier, shard, nshards, seed, n_expr=2, thin=1, remove_optsets=em.GRID_OPTSETS, cut=True)
+    yield from em.slice_edit_grid(BACKSLASH_COMMENT_PROGRAMS, tier, shard, nshards, seed, thin=1, only_ops=('insert',))
 
     # two-step histories with warm caches: a line comment put (setup) followed by the removal / cut of an enclosing statement
     for case in em.ancestor_two_step_grid(gen.TRIVIA_PROGRAMS, tier, shard, nshards, seed, thin=thin):
